@@ -281,6 +281,7 @@ Definition layer_assert_applies (g : graph) (a : larch) (c0 : @cfg comp) : loutc
   let c := convert_aliases ceqb c0 in
   if negb (required_present c) then LErr EConfig else
   if negb (behavior_consistent c) then LErr EInconsistent else
+  if c_any c0 && removed_unknown ceqb g (opt_list (c_subj c0)) then LErr ENoMatch else      (* the lowered Rule's check, D23 *)
   let imp := match c_imp c with Some b => b | None => true end in
   match convert rmatch g (opt_list (c_subj c)) with
   | Er e => LErr e
